@@ -286,7 +286,34 @@ impl CircuitSide {
         self.op_ids.len()
     }
     fn run(&self, o: &Opening) -> String {
+        self.run_with(o, None)
+    }
+    /// Id of the first row of the Merkle path. Both gadgets emit the path rows (one compression row per level,
+    /// each optionally followed / preceded by an injection row) contiguously, so path row `j` (in native
+    /// compression-call order) has id `base + j`; `run_group` cross-checks this against the returned op ids.
+    fn path_base(&self) -> Option<u32> {
+        self.op_ids.first().map(|i| i.0)
+    }
+    /// Distinct op ids the gadget hands out for sibling payloads, relative to `path_base`.
+    fn sibling_row_offsets(&self) -> Vec<usize> {
+        let Some(b) = self.path_base() else { return vec![] };
+        let mut v: Vec<usize> = vec![];
+        for id in &self.op_ids {
+            let off = (id.0 - b) as usize;
+            if v.last() != Some(&off) {
+                v.push(off);
+            }
+        }
+        v
+    }
+    /// Run on opening `o`; `pay = (j, limbs)` replaces the private payload of path row `j` (a sibling row: the
+    /// honest payload is not set; any other row, e.g. an injection row the gadget hands out no id for: the
+    /// payload is set in addition). This is the prover's freedom: `set_private_data` takes any op id and any limbs.
+    fn run_with(&self, o: &Opening, pay: Option<&(usize, Vec<CF>)>) -> String {
         let mut runner = self.circuit.runner();
+        let base = self.path_base().unwrap_or(0);
+        let pay_id = pay.map(|(j, _)| NonPrimitiveOpId(base + *j as u32));
+        let mut pay_used = false;
         let mut pubs: Vec<CF> = vec![];
         for r in &o.rows {
             if self.ext {
@@ -307,7 +334,13 @@ impl CircuitSide {
         }
         if self.arity == 2 {
             for (&id, s) in self.op_ids.iter().zip(&o.siblings) {
-                if let Err(e) = runner.set_private_data(id, perm_private_data(self.cfg, pack8(s))) {
+                let limbs = if Some(id) == pay_id {
+                    pay_used = true;
+                    pay.unwrap().1.clone()
+                } else {
+                    pack8(s)
+                };
+                if let Err(e) = runner.set_private_data(id, perm_private_data(self.cfg, limbs)) {
                     return format!("setup-err {}", variant(&format!("{e:?}")));
                 }
             }
@@ -329,9 +362,18 @@ impl CircuitSide {
                 for _ in n..3 {
                     flat.extend(vec![CF::ZERO; self.cfg.capacity_ext()]);
                 }
+                if Some(id) == pay_id {
+                    pay_used = true;
+                    flat = pay.unwrap().1.clone();
+                }
                 if let Err(e) = runner.set_private_data(id, perm_private_data(self.cfg, flat)) {
                     return format!("setup-err {}", variant(&format!("{e:?}")));
                 }
+            }
+        }
+        if let (Some((_, limbs)), Some(id), false) = (pay, pay_id, pay_used) {
+            if let Err(e) = runner.set_private_data(id, perm_private_data(self.cfg, limbs.clone())) {
+                return format!("setup-err {}", variant(&format!("{e:?}")));
             }
         }
         match runner.run() {
@@ -339,6 +381,129 @@ impl CircuitSide {
             Err(_) => "reject".into(),
         }
     }
+}
+
+// ------------------------------------------------------------------ path replay (cheating committer)
+
+/// One `compress` call of the native `verify_batch` walk, in call order.
+#[derive(Clone, Debug)]
+pub struct CompCall {
+    /// `true`: the level's N-to-1 (or bridge 2-to-1) compression; `false`: injection of a shorter matrix
+    sib_level: bool,
+    step: usize,
+    /// chunk of the running digest
+    pos: usize,
+    /// the `N` input digests the native verifier uses
+    inputs: Vec<[F; DIG]>,
+}
+
+impl CompCall {
+    /// Chunks whose content the native verifier fixes itself (not the running digest, not a proof sibling):
+    /// the default-digest pads of a bridge level (`step < N`), and on an injection the digest of the opened
+    /// rows (chunk 1) and the pads behind it.
+    fn free_chunks(&self) -> Vec<usize> {
+        if self.sib_level { (self.step..self.inputs.len()).collect() } else { (1..self.inputs.len()).collect() }
+    }
+    fn row_kind(&self) -> &'static str {
+        if !self.sib_level {
+            "injection-row"
+        } else if self.step < self.inputs.len() {
+            "bridge-row"
+        } else {
+            "full-row"
+        }
+    }
+}
+
+const fn padded_len(raw: usize, n: usize) -> usize {
+    if raw <= 1 {
+        raw
+    } else if raw >= n {
+        raw.div_ceil(n) * n
+    } else {
+        n
+    }
+}
+
+/// `MerkleTreeMmcs::verify_batch` (p3-merkle-tree 0.6.3, `mmcs/batch.rs`) as a path *replay*: the same walk
+/// (real `proof_arity_schedule`, real `PaddingFreeSponge` / `TruncatedPermutation` over the group's
+/// permutation), returning every compression call, the digest reached and the cap index, with the inputs in
+/// `ov[(call, chunk)]` replaced. With `ov` empty the digest is what the native verifier compares with the
+/// cap (self-checked by the caller against the honest commitment); with pads / injected digests replaced it
+/// is the commitment a cheating committer would publish for this path.
+#[allow(clippy::too_many_arguments)]
+fn replay_path<const N: usize, const W: usize, const R: usize>(
+    perm: &LogPerm<W>, cap_height: usize, dims: &[Dimensions], mut index: usize, streams: &[Vec<F>],
+    siblings: &[[F; DIG]], ov: &BTreeMap<(usize, usize), [F; DIG]>,
+) -> Option<(Vec<CompCall>, [F; DIG], usize)> {
+    use p3_symmetric::{CryptographicHasher, PseudoCompressionFunction};
+    let hash: Hash<W, R> = PaddingFreeSponge::new(perm.clone());
+    let comp: Comp<N, W> = TruncatedPermutation::new(perm.clone());
+    let mmcs: Plain<N, W, R> = MerkleTreeMmcs::new(hash.clone(), comp.clone(), cap_height);
+    let schedule = mmcs.proof_arity_schedule(dims).ok()?;
+    if siblings.len() != schedule.iter().map(|s| s - 1).sum::<usize>() || streams.len() != dims.len() {
+        return None;
+    }
+    let max_height = dims.iter().map(|d| d.height).max()?;
+    if index >= max_height {
+        return None;
+    }
+    let mut order: Vec<usize> = (0..dims.len()).collect();
+    order.sort_by_key(|&i| std::cmp::Reverse(dims[i].height)); // stable, as `sorted_by_key`
+    let mut rest = order.as_slice();
+    let leaf_npt = max_height.next_power_of_two();
+    let n_leaf = rest.iter().take_while(|&&i| dims[i].height.next_power_of_two() == leaf_npt).count();
+    let mut digest: [F; DIG] = hash.hash_iter_slices(rest[..n_leaf].iter().map(|&i| streams[i].as_slice()));
+    rest = &rest[n_leaf..];
+    let mut curr = padded_len(max_height, N);
+    let zero = [F::ZERO; DIG];
+    let mut calls: Vec<CompCall> = vec![];
+    let mut pp = 0usize;
+    let apply = |calls: &mut Vec<CompCall>, sib_level: bool, step: usize, pos: usize, inputs: [[F; DIG]; N]| -> [F; DIG] {
+        let j = calls.len();
+        calls.push(CompCall { sib_level, step, pos, inputs: inputs.to_vec() });
+        let used: [[F; DIG]; N] = core::array::from_fn(|k| ov.get(&(j, k)).copied().unwrap_or(inputs[k]));
+        comp.compress(used)
+    };
+    for &step in &schedule {
+        let sibs = &siblings[pp..pp + step - 1];
+        pp += step - 1;
+        let pos = index % step;
+        let mut si = 0;
+        let inputs: [[F; DIG]; N] = core::array::from_fn(|k| {
+            if k < step {
+                if k == pos {
+                    digest
+                } else {
+                    si += 1;
+                    sibs[si - 1]
+                }
+            } else {
+                zero
+            }
+        });
+        digest = apply(&mut calls, true, step, pos, inputs);
+        index /= step;
+        let logical_next = curr / step;
+        curr = padded_len(logical_next, N);
+        let next_npt = logical_next.next_power_of_two();
+        if let Some(&first) = rest.first() {
+            let h = dims[first].height;
+            if h.next_power_of_two() == next_npt {
+                let n_inj = rest.iter().take_while(|&&i| dims[i].height == h).count();
+                let inj: [F; DIG] = hash.hash_iter_slices(rest[..n_inj].iter().map(|&i| streams[i].as_slice()));
+                rest = &rest[n_inj..];
+                let inputs: [[F; DIG]; N] = core::array::from_fn(|k| if k == 0 { digest } else if k == 1 { inj } else { zero });
+                digest = apply(&mut calls, false, step, 0, inputs);
+            }
+        }
+    }
+    Some((calls, digest, index))
+}
+
+/// The digest a `pay` case puts into chunk `k` of path row `j` (non-zero, distinct per row / chunk / word).
+fn pay_digest(j: usize, k: usize) -> [F; DIG] {
+    core::array::from_fn(|w| F::from_u64(0xC08C00 + 977 * j as u64 + 131 * k as u64 + w as u64 + 1))
 }
 
 // ------------------------------------------------------------------ generator
@@ -475,6 +640,14 @@ enum Alt {
     ClaimHeight(usize, usize),
     /// commitment with `2^(nbits+1)` cap entries (the honest cap repeated): taller than the index
     CapOversize,
+    /// adversarial private data / cheating committer: `Pay(mode, j, mask)` acts on path row `j` (native
+    /// compression-call order) and the chunks in `mask` that the native verifier fills itself (bridge pads,
+    /// injected digest and the pads behind it), each replaced by `pay_digest(j, k)`.
+    /// mode 0: honest commitment, the row's private payload carries the replaced chunks (`mask = 0`: the honest
+    ///         payload followed by one surplus digest);
+    /// mode 1: the commitment replayed with the replaced chunks (what a cheating committer publishes for this
+    ///         path) + that payload;  mode 2: that commitment + the honest payload.
+    Pay(u8, usize, u8),
 }
 
 impl Alt {
@@ -489,6 +662,7 @@ impl Alt {
             Alt::ShiftRow(a, b) => format!("shiftrow:{a}:{b}"),
             Alt::ClaimHeight(m, h) => format!("claimheight:{m}:{h}"),
             Alt::CapOversize => "capoversize".into(),
+            Alt::Pay(m, j, k) => format!("pay:{m}:{j}:{k}"),
         }
     }
     fn kind(&self) -> &'static str {
@@ -502,6 +676,9 @@ impl Alt {
             Alt::ShiftRow(..) => "shift-row-boundary",
             Alt::ClaimHeight(..) => "claimed-height",
             Alt::CapOversize => "cap-oversize",
+            Alt::Pay(0, ..) => "adversarial-payload",
+            Alt::Pay(1, ..) => "forged-commitment-adversarial-payload",
+            Alt::Pay(..) => "forged-commitment-honest-payload",
         }
     }
     fn parse(s: &str) -> Option<Alt> {
@@ -517,6 +694,7 @@ impl Alt {
             "shiftrow" => Alt::ShiftRow(n(1)?, n(2)?),
             "claimheight" => Alt::ClaimHeight(n(1)?, n(2)?),
             "capoversize" => Alt::CapOversize,
+            "pay" => Alt::Pay(n(1)? as u8, n(2)?, n(3)? as u8),
             _ => return None,
         })
     }
@@ -625,6 +803,32 @@ fn run_group(cx: &mut Ctx, gid: &str, s: &Shape, data_seed: u64, n_indices: usiz
     indices.dedup();
     indices.truncate(n_indices.max(1).max(if all_positions && max_h <= 64 { max_h } else { 0 }));
 
+    // path replay of an opening of this group (native walk with replaced chunks)
+    let empty_ov: BTreeMap<(usize, usize), [F; DIG]> = BTreeMap::new();
+    let replay = |o: &Opening, dims: &[Dimensions], ov: &BTreeMap<(usize, usize), [F; DIG]>| {
+        let streams: Vec<Vec<F>> = o
+            .rows
+            .iter()
+            .enumerate()
+            .map(|(m, row)| {
+                let mut v = row.clone();
+                if let Some(sl) = o.salts.get(m) {
+                    v.extend(sl.iter().copied());
+                }
+                v
+            })
+            .collect();
+        catch_unwind(AssertUnwindSafe(|| {
+            if arity == 2 {
+                replay_path::<2, 16, 8>(&p16, s.cap_height, dims, o.index, &streams, &o.siblings, ov)
+            } else {
+                replay_path::<4, 32, 24>(&p32, s.cap_height, dims, o.index, &streams, &o.siblings, ov)
+            }
+        }))
+        .ok()
+        .flatten()
+    };
+
     let plan: Vec<(usize, Alt)> = if let Some(o) = only {
         o
     } else {
@@ -665,6 +869,34 @@ fn run_group(cx: &mut Ctx, gid: &str, s: &Shape, data_seed: u64, n_indices: usiz
             if ii == 0 && arity == 2 && capbits_case {
                 plan.push((idx, Alt::CapOversize));
             }
+            // adversarial private data / cheating committer, on every path row that has chunks the native
+            // verifier fills itself (and the surplus-limb payload on sibling rows)
+            if let Some((calls, _, _)) = replay(&o, &dims, &empty_ov) {
+                for (j, cc) in calls.iter().enumerate() {
+                    let free = cc.free_chunks();
+                    let mut masks: Vec<u8> = vec![];
+                    if !free.is_empty() {
+                        masks.push(free.iter().map(|k| 1u8 << k).sum());
+                        if free.len() > 1 {
+                            if all_positions {
+                                masks.extend(free.iter().map(|k| 1u8 << k));
+                            } else {
+                                masks.push(1u8 << free[r.usize(free.len())]);
+                            }
+                        }
+                    }
+                    for &m in &masks {
+                        plan.push((idx, Alt::Pay(1, j, m)));
+                        plan.push((idx, Alt::Pay(0, j, m)));
+                    }
+                    if let Some(&full) = masks.first() {
+                        plan.push((idx, Alt::Pay(2, j, full)));
+                    }
+                    if cc.sib_level && (j == 0 || all_positions) {
+                        plan.push((idx, Alt::Pay(0, j, 0)));
+                    }
+                }
+            }
             if ii == 0 && !hiding && !ext {
                 // shape alterations (native shape checks vs gadget build-time checks)
                 for a in 0..s.mats.len() {
@@ -694,6 +926,9 @@ fn run_group(cx: &mut Ctx, gid: &str, s: &Shape, data_seed: u64, n_indices: usiz
         let mut dims_c = dims.clone();
         let mut rebuilt: Option<Result<CircuitSide, String>> = None;
         let one = F::ONE;
+        // `pay` cases: (path row, payload in base coefficients), and the row kind for the class
+        let mut pay_base: Option<(usize, Vec<F>)> = None;
+        let mut pay_row: Option<&'static str> = None;
         match &alt {
             Alt::Honest => {}
             Alt::Leaf(m, j) => match o.rows.get_mut(*m).and_then(|r| r.get_mut(*j)) { Some(x) => *x += one, None => continue },
@@ -731,6 +966,61 @@ fn run_group(cx: &mut Ctx, gid: &str, s: &Shape, data_seed: u64, n_indices: usiz
                     Err(_) => Err("panic".into()),
                 });
             }
+            Alt::Pay(mode, j, mask) => {
+                let (mode, j, mask) = (*mode, *j, *mask);
+                let Ok(c) = &base_circuit else { continue };
+                if c.expected_siblings() != o.siblings.len() {
+                    // the gadget's path differs from the native one (F-C08-1): no honest opening to start from
+                    bump(&mut cx.hist, "pay.skipped-path-length-mismatch");
+                    continue;
+                }
+                let Some((calls, root, cap_idx)) = replay(&o, &dims_c, &empty_ov) else {
+                    bump(&mut cx.hist, "pay.replay-unavailable");
+                    continue;
+                };
+                if o.cap.get(cap_idx) != Some(&root) {
+                    // the replay is the harness's own copy of the native walk: must reproduce the honest commitment
+                    bump(&mut cx.hist, "violation.harness-replay-selfcheck-failed");
+                    if cx.violations.iter().filter(|v| v["class"] == "harness-replay-selfcheck-failed").count() < 3 {
+                        cx.violations.push(json!({"property": "C08", "kind": alt.kind(), "class": "harness-replay-selfcheck-failed",
+                            "detail": {"native": "-", "circuit": "-", "case": format!("{gid}/{idx}/{}", alt.tag()), "num_roots": cap_len, "nbits": nbits},
+                            "replay": {"shape": shape_json(s, data_seed), "cases": [[idx, alt.tag()]]}}));
+                    }
+                    continue;
+                }
+                let sib_rows: Vec<usize> = calls.iter().enumerate().filter(|(_, c)| c.sib_level).map(|(i, _)| i).collect();
+                if c.sibling_row_offsets() != sib_rows {
+                    bump(&mut cx.hist, "pay.skipped-rowmap-mismatch");
+                    continue;
+                }
+                let Some(cc) = calls.get(j) else { continue };
+                let free = cc.free_chunks();
+                let chunks: Vec<usize> = (0..8).filter(|k| (mask >> k) & 1 == 1).collect();
+                if chunks.iter().any(|k| !free.contains(k)) || (mask == 0 && (mode != 0 || !cc.sib_level)) {
+                    continue;
+                }
+                let ov: BTreeMap<(usize, usize), [F; DIG]> = chunks.iter().map(|&k| ((j, k), pay_digest(j, k))).collect();
+                if mode != 0 {
+                    let Some((_, forged, _)) = replay(&o, &dims_c, &ov) else { continue };
+                    if forged == root { continue }
+                    o.cap[cap_idx] = forged;
+                }
+                if mode != 2 {
+                    // the executor fills the chunks other than the running one in ascending order
+                    let mut limbs: Vec<F> = vec![];
+                    for k in 0..cc.inputs.len() {
+                        if k != cc.pos {
+                            limbs.extend(ov.get(&(j, k)).copied().unwrap_or(cc.inputs[k]));
+                        }
+                    }
+                    if mask == 0 {
+                        limbs.extend(pay_digest(j, 7));
+                    }
+                    pay_base = Some((j, limbs));
+                }
+                pay_row = Some(cc.row_kind());
+                bump(&mut cx.hist, &format!("pay.arity{arity}.{}.{}", cc.row_kind(), if mask == 0 { "surplus-limbs" } else { "native-fixed-chunks" }));
+            }
             Alt::ClaimHeight(m, h) => {
                 if *m >= dims_c.len() { continue }
                 dims_c[*m].height = *h;
@@ -757,7 +1047,12 @@ fn run_group(cx: &mut Ctx, gid: &str, s: &Shape, data_seed: u64, n_indices: usiz
         // circuit
         cx.on.store(true, Ordering::Relaxed);
         let cv = match cs {
-            Ok(c) => catch_unwind(AssertUnwindSafe(|| c.run(&o))).unwrap_or_else(|_| "panic".into()),
+            Ok(c) => {
+                let pay: Option<(usize, Vec<CF>)> = pay_base
+                    .as_ref()
+                    .map(|(j, b)| (*j, b.chunks(D).map(|c| CF::from_basis_coefficients_slice(c).unwrap()).collect()));
+                catch_unwind(AssertUnwindSafe(|| c.run_with(&o, pay.as_ref()))).unwrap_or_else(|_| "panic".into())
+            }
             Err(e) => e.clone(),
         };
         cx.on.store(false, Ordering::Relaxed);
@@ -801,6 +1096,9 @@ fn run_group(cx: &mut Ctx, gid: &str, s: &Shape, data_seed: u64, n_indices: usiz
         for ce in &o.cap {
             writeln!(cx.cases, "cap {}", nums(ce)).unwrap();
         }
+        if let Some((j, b)) = &pay_base {
+            writeln!(cx.cases, "pay {j} {}", nums(b)).unwrap();
+        }
         writeln!(cx.cases, "go").unwrap();
         // implementation answer in the driver's output format; the circuit trace is only defined when it ran
         let cvc = cv.split(' ').next().unwrap().to_string();
@@ -830,7 +1128,15 @@ fn run_group(cx: &mut Ctx, gid: &str, s: &Shape, data_seed: u64, n_indices: usiz
         if !fails_safely && (n_ok != c_ok || cvc == "panic" || nv == "panic" || cvc == "setup-err") {
             // the class names the direction, the native verdict and the situation (arity, cap,
             // alteration kind), so that a different failure of the same property is a different class
-            let sit = format!("arity{arity}:{}:{}", if cap_len > 1 { "cap" } else { "root" }, alt.kind());
+            // `pay` cases also name the kind of path row acted on
+            let kind_s = match pay_row {
+                Some(rk) => format!("{}:arity{arity}:{rk}", alt.kind()),
+                None => alt.kind().to_string(),
+            };
+            let sit = match pay_row {
+                Some(rk) => format!("arity{arity}:{}:{}:{rk}", if cap_len > 1 { "cap" } else { "root" }, alt.kind()),
+                None => format!("arity{arity}:{}:{}", if cap_len > 1 { "cap" } else { "root" }, alt.kind()),
+            };
             let class = if cvc == "panic" {
                 format!("circuit-panics:native-{nv}:{sit}")
             } else if nv == "panic" {
@@ -838,7 +1144,7 @@ fn run_group(cx: &mut Ctx, gid: &str, s: &Shape, data_seed: u64, n_indices: usiz
             } else if cvc == "setup-err" {
                 format!("circuit-setup-error:native-{nv}:{sit}")
             } else if c_ok {
-                format!("circuit-accepts-native-rejects:{nv}:{}", alt.kind())
+                format!("circuit-accepts-native-rejects:{nv}:{kind_s}")
             } else if cs.as_ref().map(|c| c.expected_siblings() != o.siblings.len()).unwrap_or(false) {
                 // the gadget's path has a different number of sibling slots than the native proof
                 format!("circuit-rejects-native-accepts:proof-length-mismatch:arity{arity}:{}", if cap_len > 1 { "cap" } else { "root" })
